@@ -29,7 +29,7 @@ def run_case(case, path):
     if tr is not None:
         kw['time_range'] = tr
     if case.get('types') is not None:
-        kw['message_types'] = set(L.mtype(t) for t in case['types'])
+        kw['message_types'] = L.types_arg(case['types'], case.get('types_form'))
     late = case.get('late_srcs')
     if case.get('srcs') is not None:
         kw['source_ids'] = set(case['srcs'])
